@@ -433,6 +433,13 @@ class ObjV:
         self.attrs = dict(attrs or {})
 
 
+class BoundV:
+    """A bound method used as a value (`self.m_gate` stored in a table of gates and called later)."""
+
+    def __init__(self, fi, selfv):
+        self.fi, self.selfv = fi, selfv
+
+
 class NoneV:
     pass
 
@@ -619,6 +626,8 @@ class Evaluator:
                 return base.attrs[e.attr]
             if e.attr == "_name":
                 return StrV("«name»")
+            if self.repo.has_method(base.cls, e.attr):
+                return BoundV(self.repo.method(base.cls, e.attr), base)
             return PW.of(Rat.atom(f"self.{e.attr}"))
         txt = ast.unparse(e)
         if txt in ("jnp.pi", "np.pi", "math.pi"):
@@ -677,6 +686,8 @@ class Evaluator:
             ast.copy_location(inner, e)
             return self.ev_Call(inner, env, ctx)
         name = f.attr if isinstance(f, ast.Attribute) else (f.id if isinstance(f, ast.Name) else None)
+        if name is None and isinstance(f, ast.Subscript):
+            name = "«subscript»"
         if name is None:
             raise Und("callee")
         root = None
@@ -729,12 +740,34 @@ class Evaluator:
                                  selfv if isinstance(selfv, ObjV) else ObjV(cls))
             raise Und(f"self.{name}")
 
+        # a bound method held in a local variable / table:  rates = self.m_gate; rates(v)
+        if isinstance(f, ast.Name) and isinstance(env.get(f.id), BoundV):
+            b = env[f.id]
+            args, kwargs = self.eval_args(e, env, ctx)
+            return self.call(b.fi, args, kwargs, b.selfv)
+        if isinstance(f, ast.Subscript):
+            try:
+                b = self.ev(f, env, ctx)
+            except Und:
+                b = None
+            if isinstance(b, BoundV):
+                args, kwargs = self.eval_args(e, env, ctx)
+                return self.call(b.fi, args, kwargs, b.selfv)
+
         # method call on an object value (transform.forward(x))
         if isinstance(f, ast.Attribute):
             try:
                 recv = self.ev(f.value, env, ctx) if not (isinstance(f.value, ast.Name) and f.value.id not in env) else None
             except Und:
                 recv = None
+            if isinstance(recv, dict) and not e.args and not e.keywords:
+                # concrete dictionaries built by the code itself (a table of gates): enumerable in insertion order
+                if name == "items":
+                    return tuple((StrV(k), v) for k, v in recv.items())
+                if name == "keys":
+                    return tuple(StrV(k) for k in recv)
+                if name == "values":
+                    return tuple(recv.values())
             if name in ("to_numpy", "astype", "to_list", "tolist", "copy") and isinstance(recv, (PW, SymArr)):
                 return recv
             if isinstance(recv, ObjV) and self.repo.has_method(recv.cls, name):
